@@ -99,3 +99,38 @@ def tokens_to_string(tokens, text=None):
     # last line
     content += line
     return content
+
+
+def kw_value_to_string(value):
+    # text of a value of the `key = value` lists (USING / SET / WITH parameters), json values included
+    from mindsdb_sql.parser.ast.base import ASTNode
+    from mindsdb_sql.parser.ast.select.constant import Constant
+
+    if isinstance(value, ASTNode):
+        return value.to_string()
+    if isinstance(value, str):
+        # only these two characters are decoded by the lexer inside of a double-quoted string
+        value = value.replace('\\', '\\\\').replace('"', '\\"')
+        return f'"{value}"'
+    if value is None:
+        return 'null'
+    if isinstance(value, bool):
+        return 'true' if value else 'false'
+    if isinstance(value, dict):
+        items = [f'{kw_value_to_string(str(k))}: {kw_value_to_string(v)}' for k, v in value.items()]
+        return '{' + ', '.join(items) + '}'
+    if isinstance(value, (list, tuple)):
+        return '[' + ', '.join([kw_value_to_string(v) for v in value]) + ']'
+    return Constant(value).to_string()
+
+
+def kw_parameters_to_string(params):
+    # text of a `key = value, ...` list
+    from mindsdb_sql.parser.ast.select.identifier import Identifier
+
+    items = []
+    for key, value in params.items():
+        if not isinstance(key, Identifier):
+            key = Identifier(key)
+        items.append(f'{key.to_string()}={kw_value_to_string(value)}')
+    return ', '.join(items)
